@@ -50,6 +50,8 @@ def fam_exactly_once(w: World) -> None:
             return
         if cfg['async'] and ch.flag(1, 3, 'new_event_loop'):
             sut.new_event_loop()
+        if d + 1 < len(infos) and ch.flag(1, 4, 'redeploy'):
+            sut.redeploy()
 
 
 def _one_delivery(w: World, sut: S.ServerUnderTest, cfg: Dict[str, Any], info: Dict[str, Any], d: int) -> None:
